@@ -114,6 +114,9 @@ type Custom struct {
 	Args     [][]string `json:"args,omitempty"` // each: name, values...
 	Embed    []string   `json:"embed,omitempty"`
 	Exported bool       `json:"exported"`
+	// Anon: the tagged field is itself an anonymous by-value struct field (`simrt.Mark`,
+	// Field == "Mark"): it carries a tag, so it is a field to process, not a carrier.
+	Anon bool `json:"anon,omitempty"`
 }
 
 // GoName is the Go field name of the point (Field is its unique key within the type; two
@@ -155,6 +158,9 @@ type Conf struct {
 	Embed    []string `json:"embed,omitempty"`
 	// Also: the same field additionally carries this custom tag (two recognised tags on one field).
 	Also *Custom `json:"also,omitempty"`
+	// Anon: a prefix-bound struct declared as a tagged anonymous field (`simrt.CfgAB`,
+	// Field == "CfgAB").
+	Anon bool `json:"anon,omitempty"`
 }
 
 type Instance struct {
@@ -175,6 +181,10 @@ type Instance struct {
 	// post-processor contributes its definition (DefinitionRegistry.RegisterMeta) during the
 	// scanning phase. Only for types without points / configuration fields.
 	Contributed bool `json:"contributed,omitempty"`
+	// SetKey / SetVal: from inside its Init / AfterPropertiesSet callback the instance changes
+	// the configuration (Configure.Set(SetKey, SetVal)): components created later see the new value.
+	SetKey string `json:"setKey,omitempty"`
+	SetVal int    `json:"setVal,omitempty"`
 }
 
 // Proc is a user post-processor instance (one of nine static harness types).
